@@ -334,6 +334,134 @@ Section Sim.
                 destruct (run_steps (std_step c) (update_entry (fstack_exit c (consume c s r))) rs) as [ss2 o_s].
                 cbn [pendout app] in *. exact IH.
   Qed.
+
+  (* one record read by fstack_skip() while an ENTRY is pending, against the other loop one step ahead *)
+  Lemma skip_step s e d r : GI s -> SkipInv s e d -> dcons (stack_count s) [r] ->
+    let '((s', m'), o) := rp_step c (s, Skipping e d) r in
+    let '(ss', os) := std_step c (update_entry s) r in
+    o ++ pendout m' = mkev false e d :: os /\ Rel s' m' ss' /\ GI s'
+    /\ stack_count s' = match r_type r with ENTRY => stack_count s + 1 | EXIT => stack_count s - 1 end.
+  Proof.
+    intros G (He & Hds & Hdd & extra & sle & rest & Hb & Hlen & Hnr) D.
+    pose proof G as (Hs & Houtc & Hok & Hdisp).
+    assert (Hcnt : stack_count s = Z.of_nat (length extra) + 1 + r_depth e).
+    { unfold stack_count. rewrite Hb, app_length. cbn [length]. lia. }
+    cbn [rp_step]. rewrite (Hplt (r_fn r)).
+    destruct (r_depth r <=? r_depth e) eqn:Ele.
+    - cbn [dcons] in D. destruct (r_type r) eqn:Hr; [destruct D as [Hd _]; lia|].
+      destruct D as (Hd & Hpos & _).
+      assert (Hx : extra = []) by (destruct extra; [reflexivity|cbn [length] in Hcnt; lia]).
+      subst extra. cbn [app] in Hb.
+      assert (Eeq : (r_depth r =? r_depth e) = true) by lia. rewrite Eeq.
+      unfold std_step. rewrite (consume_shift c s r Hs). unfold std_body. rewrite Hr.
+      assert (Hcons : consume c s r = set_stacks s rest (sle :: above s)).
+      { unfold consume. rewrite Hs, Hr, Hb. reflexivity. }
+      assert (Htop : top_above c (update_entry (consume c s r)) = sle) by (rewrite Hcons; reflexivity).
+      rewrite Htop, Hnr. cbn [orb]. rewrite (Hplt (r_fn r)).
+      assert (Hen : enabled (update_entry (consume c s r)) = true) by (rewrite Hcons; exact He).
+      rewrite Hen. cbn [negb].
+      assert (Hue : update_exit (update_entry (consume c s r)) = consume c s r).
+      { rewrite Hcons. unfold update_exit, update_entry, set_disp, set_stacks. zsimp. rewrite Hds.
+        assert (E : (disp s + 1 >? 0) = true) by lia. rewrite E.
+        destruct s; cbn in *. subst. f_equal. lia. }
+      rewrite Hue.
+      assert (G' : GI (fstack_exit c (consume c s r))).
+      { apply (do_exit_GI c s r G Hr). rewrite Hb. discriminate. }
+      replace (disp (consume c s r)) with d by (rewrite Hcons; cbn; congruence).
+      split; [reflexivity|]. split; [reflexivity|]. split; [exact G'|].
+      rewrite Hcons. unfold stack_count. cbn [fstack_exit below set_stacks]. rewrite Hb. cbn [length]. lia.
+    - destruct (check_skip c s r >=? 0) eqn:Ecs.
+      + assert (Gu : GI (update_entry s)).
+        { unfold GI, update_entry, set_disp. cbn [started outc below disp]. repeat split; auto. lia. }
+        pose proof (normal_step (update_entry s) r Gu D) as N.
+        replace (match r_type r with
+                 | ENTRY => let '(sm', o) := rp_normal c (update_entry s) r in (sm', mkev false e d :: o)
+                 | EXIT => if r_depth r =? r_depth e
+                           then (fstack_exit c (consume c s r), Normal, [mkev false e d; mkev true r d])
+                           else let '(sm', o) := rp_normal c (update_entry s) r in (sm', mkev false e d :: o)
+                 end)
+          with (let '(sm', o) := rp_normal c (update_entry s) r in (sm', mkev false e d :: o)).
+        2:{ destruct (r_type r); [reflexivity|]. assert (E : (r_depth r =? r_depth e) = false) by lia.
+            rewrite E. reflexivity. }
+        destruct (rp_normal c (update_entry s) r) as [[s' m'] o].
+        destruct (std_step c (update_entry s) r) as [ss' os].
+        destruct N as (No & NR & NG & Nc).
+        split; [cbn [app]; rewrite No; reflexivity|]. split; [exact NR|]. split; [exact NG|exact Nc].
+      + cbn [dcons] in D. destruct (r_type r) eqn:Hr.
+        * destruct D as [Hd _].
+          pose proof (check_skip_entry c s r Hs Hr Ecs) as Hfail.
+          pose proof (do_entry_shape c s r Hs Hr) as (sl & Hb1 & _).
+          pose proof (do_entry_GI c s r G Hr) as G1.
+          pose proof (do_entry_fail c s r Hs Hr Hfail) as (Hd1 & Hds1).
+          unfold std_step. rewrite (consume_shift c s r Hs). unfold std_body. rewrite Hr.
+          assert (Hdsc : disp_set (consume c s r) = true).
+          { unfold consume. rewrite Hs, Hr. exact Hds. }
+          rewrite (fstack_entry_shift c (consume c s r) r Hdsc).
+          unfold do_entry in *. destruct (fstack_entry c (consume c s r) r) as [s2 ok]. cbn [fst snd] in *.
+          subst ok.
+          assert (Hc2 : stack_count s2 = stack_count s + 1)
+            by (unfold stack_count; rewrite Hb1; cbn [length]; lia).
+          destruct (enabled s2) eqn:En2.
+          -- split; [reflexivity|]. split; [|split; assumption].
+             cbn [Rel]. split; [reflexivity|]. unfold SkipInv. repeat split; auto; try congruence.
+             exists (sl :: extra), sle, rest. rewrite Hb1, Hb. repeat split; auto.
+          -- split; [reflexivity|]. split; [reflexivity|]. split; [|exact Hc2].
+             destruct G1 as (A & B & C & D0). unfold GI, update_entry, set_disp.
+             cbn [started outc below disp]. repeat split; auto. lia.
+        * destruct D as (Hd & Hpos & _).
+          assert (Hx : exists x extra', extra = x :: extra').
+          { destruct extra as [|x extra']; [cbn [length] in Hcnt; lia|eauto]. }
+          destruct Hx as (x & extra' & ->). cbn [app] in Hb.
+          assert (Hxn : sl_norecord x = true).
+          { unfold check_skip in Ecs. rewrite Hr, Hb in Ecs.
+            destruct (outc s >? 0) eqn:Eo.
+            - rewrite Hb in Hok, Houtc. cbn [nt_ok] in Hok. destruct Hok as (H1 & _). apply H1. lia.
+            - destruct (sl_norecord x); [reflexivity|]. cbn in Ecs. discriminate. }
+          assert (Hcons : consume c s r = set_stacks s (extra' ++ sle :: rest) (x :: above s)).
+          { unfold consume. rewrite Hs, Hr, Hb. reflexivity. }
+          unfold std_step. rewrite (consume_shift c s r Hs). unfold std_body. rewrite Hr.
+          assert (Htop : top_above c (update_entry (consume c s r)) = x) by (rewrite Hcons; reflexivity).
+          rewrite Htop, Hxn. cbn [orb]. rewrite fstack_exit_shift.
+          assert (G2 : GI (fstack_exit c (consume c s r))).
+          { apply (do_exit_GI c s r G Hr). rewrite Hb. discriminate. }
+          assert (En2 : enabled (fstack_exit c (consume c s r)) = true) by (rewrite Hcons; exact He).
+          rewrite En2.
+          assert (Hc2 : stack_count (fstack_exit c (consume c s r)) = stack_count s - 1).
+          { rewrite Hcons. unfold stack_count. cbn [fstack_exit below set_stacks]. rewrite Hb.
+            cbn [length]. lia. }
+          split; [reflexivity|]. split; [|split; assumption].
+          cbn [Rel]. split; [reflexivity|]. unfold SkipInv. rewrite Hcons.
+          cbn [fstack_exit enabled disp_set disp below set_stacks]. repeat split; auto.
+          exists extra', sle, rest. repeat split; auto.
+  Qed.
+
+  (* a record that fstack_check_skip() lets pass unseen is invisible to the other loop as well *)
+  Lemma swallow_std s r : GI s -> dcons (stack_count s) [r] -> (check_skip c s r >=? 0) = false ->
+    let s2 := match r_type r with ENTRY => fst (fstack_entry c (consume c s r) r) | EXIT => fstack_exit c (consume c s r) end in
+    std_step c s r = (s2, []) /\ GI s2
+    /\ stack_count s2 = match r_type r with ENTRY => stack_count s + 1 | EXIT => stack_count s - 1 end.
+  Proof.
+    intros G D Ecs. pose proof G as (Hs & Houtc & Hok & Hdisp). cbn [dcons] in D.
+    unfold std_step, std_body. destruct (r_type r) eqn:Hr.
+    - pose proof (check_skip_entry c s r Hs Hr Ecs) as Hfail.
+      pose proof (do_entry_shape c s r Hs Hr) as (sl & Hb1 & _).
+      pose proof (do_entry_GI c s r G Hr) as G1.
+      unfold do_entry in *. destruct (fstack_entry c (consume c s r) r) as [s2 ok]. cbn [fst snd] in *. subst ok.
+      split; [reflexivity|]. split; [exact G1|]. unfold stack_count. rewrite Hb1. cbn [length]. lia.
+    - destruct D as (Hd & Hpos & _).
+      destruct (below s) as [|x b] eqn:Hb; [unfold stack_count in Hpos; rewrite Hb in Hpos; cbn in Hpos; lia|].
+      assert (Hxn : sl_norecord x = true).
+      { unfold check_skip in Ecs. rewrite Hr, Hb in Ecs.
+        destruct (outc s >? 0) eqn:Eo.
+        - cbn [nt_ok] in Hok. destruct Hok as (H1 & _). apply H1. lia.
+        - destruct (sl_norecord x); [reflexivity|]. cbn in Ecs. discriminate. }
+      assert (Hcons : consume c s r = set_stacks s b (x :: above s)).
+      { unfold consume. rewrite Hs, Hr, Hb. reflexivity. }
+      assert (Htop : top_above c (consume c s r) = x) by (rewrite Hcons; reflexivity).
+      rewrite Htop, Hxn. cbn [orb].
+      split; [reflexivity|]. split; [apply (do_exit_GI c s r G Hr); rewrite Hb; discriminate|].
+      rewrite Hcons. unfold stack_count. cbn [fstack_exit below set_stacks]. rewrite Hb. cbn [length]. lia.
+  Qed.
 End Sim.
 
 (* ------------------------------------------------------------------ from the initial state *)
